@@ -44,6 +44,8 @@ WHITELIST = [
     dict(cls=None, fn="ans_write_end"),
     dict(cls="RAnsDecoder", fn="read_init", targs=[12]),
     dict(cls=None, fn="ans_read_init"),
+    dict(cls=None, fn="DecodeVarintUnsigned", params=["int", "unsigned int *", "draco::DecoderBuffer *"], suffix="_u32"),
+    dict(cls=None, fn="DecodeVarintUnsigned", params=["int", "unsigned long *", "draco::DecoderBuffer *"], suffix="_u64"),
     dict(cls=None, fn="DecodeVarintUnsigned", params=["int", "unsigned int *", "draco::DecoderBuffer *"], suffix="_depthCheck_u32",
          slice=dict(scope="body", first_decl="max_depth", count=2)),
     dict(cls=None, fn="DecodeVarintUnsigned", params=["int", "unsigned long *", "draco::DecoderBuffer *"], suffix="_depthCheck_u64",
@@ -182,7 +184,7 @@ class CT:
             return "Int × Int"
         if self.kind == "wlog":
             return "List (Int × Int)"
-        if self.kind == "sink":
+        if self.kind in ("sink", "stream"):
             return "List Int"
         raise XlateError(f"no Lean type for C type {self!r}")
 
@@ -614,33 +616,42 @@ class Translator:
     def wl_entry(self, decl):
         cls = self.ix.class_of(decl)
         ptys = [repr(node_type(c)) for c in decl.get("inner", []) if c.get("kind") == "ParmVarDecl"]
+        hits = []
         for w in self.wl:
             if w["fn"] == decl.get("name") and (w.get("cls") == (cls.get("name") if cls else None)):
                 if w.get("params") is not None and [repr(parse_type(q)) for q in w["params"]] != ptys:
                     continue
-                return w
-        return {}
+                hits.append(w)
+        whole = [w for w in hits if not (w.get("slice") or w.get("chain"))]
+        return (whole or hits or [{}])[0]
 
-    def translate(self, decl):
-        i = decl["id"]
-        if i in self.done:
-            return self.done[i]
-        if i in self.in_progress:
-            raise XlateError(f"recursive call of {decl.get('name')}")
-        self.in_progress.add(i)
-        try:
+    def translate(self, decl, w=None):
+        """w: the whitelist entry (a whole function, a slice or a chain of it); calls from other functions (w = None)
+        mean the whole function"""
+        if w is None:
             w = self.wl_entry(decl)
+            if w.get("slice") or w.get("chain"):
+                w = {k: v for k, v in w.items() if k not in ("slice", "chain", "suffix")}
+        part = bool(w.get("slice") or w.get("chain"))
+        key = decl["id"] + ("#" + w.get("suffix", "") if part else "")
+        i = decl["id"]
+        if key in self.done:
+            return self.done[key]
+        if key in self.in_progress:
+            raise XlateError(f"recursive call of {decl.get('name')}")
+        self.in_progress.add(key)
+        try:
             ft = FuncTranslator(self, decl, pointwise=bool(w.get("pointwise")), suffix=w.get("suffix", ""),
-                                lazy_struct=bool(w.get("slice") or w.get("chain")))
+                                lazy_struct=part)
             if w.get("slice"):
                 ft.select_slice(w["slice"])
             if w.get("chain"):
                 ft.select_chain(w["chain"])
             info = ft.run()
         finally:
-            self.in_progress.discard(i)
-        self.done[i] = info
-        self.order.append(i)
+            self.in_progress.discard(key)
+        self.done[key] = info
+        self.order.append(key)
         return info
 
     def trait_value(self, node, func_decl):
@@ -774,7 +785,7 @@ class FuncTranslator:
     def select_chain(self, spec):
         """the decision skeleton of an `if / else if / …` chain: the function that maps the variables of the
         conditions to the ordinal of the branch that is taken (0, 1, …; the final `else` or fall-through is the last
-        ordinal).  The chain is the first `if` whose condition is `<var> < literal`, where `<var>` is a variable or a
+        ordinal).  The chain is the first `if` whose condition compares `<var>` with a literal, where `<var>` is a variable or a
         call of a zero-argument member function of that name; calls of the zero-argument member functions listed in
         `inputs` are inputs of the skeleton (they are assumed to be pure getters)."""
         var = spec["var"]
@@ -794,7 +805,7 @@ class FuncTranslator:
                 return
             if x.get("kind") == "IfStmt":
                 c = _strip_casts(x["inner"][0])
-                if c.get("kind") == "BinaryOperator" and c.get("opcode") == "<" and is_var(c["inner"][0]) and \
+                if c.get("kind") == "BinaryOperator" and c.get("opcode") in ("<", "<=", ">", ">=", "==", "!=") and is_var(c["inner"][0]) and \
                         _strip_casts(c["inner"][1]).get("kind") == "IntegerLiteral":
                     found.append(x)
                     return
@@ -803,7 +814,7 @@ class FuncTranslator:
                     walk(ch)
         walk(self.body)
         if not found:
-            raise XlateError(f"chain: no `if ({var} < literal)` found")
+            raise XlateError(f"chain: no `if ({var} <comparison> literal)` found")
         conds, node = [], found[0]
         while node is not None and node.get("kind") == "IfStmt":
             if node.get("hasInit") or node.get("hasVar"):
@@ -942,6 +953,7 @@ class FuncTranslator:
         self.out_locs = []
         self.sptr = {}
         self.sink_params = set()
+        self.stream_params = {}
         self.has_sink = False
         self.has_log = False
         self.log_base = None
@@ -1000,6 +1012,12 @@ class FuncTranslator:
                 info.params.append((ln, "Int → Int", ("src", k)))
             elif t.kind == "ptr" and t.to.kind == "void":
                 ctx.bptr["v:" + p["id"]] = ("p:" + p["id"], "0")
+            elif t.kind == "ptr" and t.to.kind == "class" and t.to.name.split("::")[-1] == "DecoderBuffer":
+                # a byte source with a position: the list of the bytes not yet consumed
+                ln = self._alloc(nm)
+                self.stream_params[p["id"]] = k
+                ctx.types["in:"], ctx.names["in:"], ctx.vals["in:"] = CT("stream"), ln, ln
+                info.params.append((ln, "List Int", ("stream", k)))
             elif t.kind == "ptr" and t.to.kind == "class" and t.to.name.split("::")[-1] == "EncoderBuffer":
                 self.sink_params.add(p["id"])
                 self.has_sink = True
@@ -1059,6 +1077,8 @@ class FuncTranslator:
         if self.has_log:
             info.outs.append(("log",))
             ctx.types["w:"], ctx.names["w:"], ctx.vals["w:"] = CT("wlog"), self._alloc("written"), "[]"
+        if self.stream_params:
+            info.outs.append(("stream",))
         if self.has_sink:
             info.outs.append(("sink",))
             ctx.types["w:"], ctx.names["w:"], ctx.vals["w:"] = CT("sink"), self._alloc("appended"), "[]"
@@ -1078,7 +1098,7 @@ class FuncTranslator:
                 out_tys.append(self.sptr[o[2]][1])
             elif o[0] == "log":
                 out_tys.append("List (Int × Int)")
-            elif o[0] == "sink":
+            elif o[0] in ("sink", "stream"):
                 out_tys.append("List Int")
             else:
                 out_tys.append("Int")
@@ -1218,6 +1238,8 @@ class FuncTranslator:
                 parts.append("{ " + ln + " with " + upd + " }")
             elif o[0] in ("log", "sink"):
                 parts.append(ctx.vals["w:"])
+            elif o[0] == "stream":
+                parts.append(ctx.vals["in:"])
             else:
                 loc = [l for (l, k) in self.out_locs if k == o[1]][0]
                 v = ctx.vals[loc]
@@ -1403,6 +1425,24 @@ class FuncTranslator:
         inner = s.get("inner", [])
         if s.get("hasInit") or s.get("hasVar"):
             self.fail("if with init/condition variable", s)
+        dec = self._decode_byte_pattern(inner[0], ctx)
+        if dec is not None:
+            # `if (!buffer->Decode(&x)) S` for a one-byte x: S runs when the source is exhausted (and must return),
+            # otherwise x is the next byte and the source advances
+            if len(inner) > 2:
+                self.fail("`if (!buffer->Decode(&x))` with an else branch", s)
+            tl = self.stmts([inner[1]], ctx.copy(), lambda c: self.fail("the failure branch of `buffer->Decode` does not return", s))
+            c2 = ctx.copy()
+            lines2 = []
+            hd = self._alloc("byte")
+            tlname = ctx.names["in:"]
+            self.assign(c2, dec, hd, lines2)
+            self.nassign += 1
+            c2.vals["in:"] = tlname
+            c2.ver["in:"] = self.nassign
+            rl = lines2 + self.stmts(rest, c2, k)
+            cur = ctx.vals["in:"]
+            return [f"match {cur} with", "| [] =>"] + ["  " + l for l in tl] + [f"| {hd} :: {tlname} =>"] + ["  " + l for l in rl]
         cond = self.cond(inner[0], ctx)
         pre, self.pre = self.pre, []
         th = [inner[1]]
@@ -1478,6 +1518,26 @@ class FuncTranslator:
                 self.nassign += 1
                 ctx.ver[l] = self.nassign
         return lines + self.stmts(rest, ctx, k)
+
+    def _decode_byte_pattern(self, c, ctx):
+        """`!buffer->Decode(&x)` with `buffer` this function's DecoderBuffer and `x` a one-byte integer lvalue -> loc of x"""
+        c = _strip(c)
+        if c.get("kind") != "UnaryOperator" or c.get("opcode") != "!":
+            return None
+        e = _strip(c["inner"][0])
+        if e.get("kind") != "CXXMemberCallExpr" or e["inner"][0].get("name") != "Decode" or len(e["inner"]) != 2:
+            return None
+        obj = _strip(e["inner"][0]["inner"][0])
+        if obj.get("kind") != "DeclRefExpr" or obj["referencedDecl"]["id"] not in self.stream_params:
+            return None
+        a = _strip(e["inner"][1])
+        if a.get("kind") != "UnaryOperator" or a.get("opcode") != "&":
+            self.fail("DecoderBuffer::Decode with an argument that is not `&lvalue`", c)
+        loc = self.lvalue(a["inner"][0], ctx)
+        t = self.loc_type(ctx, loc)
+        if t.kind != "int" or t.bits != 8 or t.signed:
+            self.fail("DecoderBuffer::Decode of something other than one unsigned byte", c)
+        return loc
 
     def switch_stmt(self, s, rest, ctx, k):
         inner = s.get("inner", [])
@@ -1779,17 +1839,27 @@ class FuncTranslator:
             self.fail("call with effects inside `&&`, `||` or `?:`", n)
         args = n["inner"][1:]
         kinds = [o[0] for o in info.outs]
-        if any(x not in ("ret", "sink", "log") for x in kinds):
-            self.fail(f"call of `{name}` with output parameters inside an expression", n)
+        if any(x not in ("ret", "sink", "log", "out", "stream") for x in kinds):
+            self.fail(f"call of `{name}` that modifies an object inside an expression", n)
         texts = []
         for (ln, ty, how) in info.params:
-            if how[0] != "val":
-                self.fail(f"call of `{name}` with a pointer argument", n)
-            v, vt = self.ev(args[how[1]], ctx)
-            texts.append(self.convert(v, vt, node_type(cparms[how[1]]), n))
+            if how[0] == "val":
+                v, vt = self.ev(args[how[1]], ctx)
+                texts.append(self.convert(v, vt, node_type(cparms[how[1]]), n))
+            elif how[0] == "deref" and not self.pointwise:
+                texts.append(self.read(ctx, self.ptr_arg_loc(args[how[1]], ctx), n))
+            elif how[0] == "stream":
+                a = _strip(args[how[1]])
+                if not (a.get("kind") == "DeclRefExpr" and a["referencedDecl"]["id"] in self.stream_params):
+                    self.fail(f"call of `{name}`: the source argument is not this function's DecoderBuffer", n)
+                texts.append(ctx.vals["in:"])
+            else:
+                self.fail(f"call of `{name}` with an unsupported pointer argument", n)
         off = None
         for j, q in enumerate(cparms):
             qt = node_type(q)
+            if qt.kind == "ptr" and qt.to.kind == "class" and qt.to.name.split("::")[-1] == "DecoderBuffer":
+                continue
             if qt.kind == "ptr" and qt.to.kind == "class":
                 a = _strip(args[j])
                 if not (a.get("kind") == "DeclRefExpr" and a["referencedDecl"]["id"] in self.sink_params):
@@ -1809,8 +1879,8 @@ class FuncTranslator:
         if info.fueled:
             self.pre.append(f"@@BIND {rn} := {callt}")
         else:
-            tys = [("Int" if o[0] == "ret" and o[1].kind == "int" else "Bool" if o[0] == "ret" else
-                    "List Int" if o[0] == "sink" else "List (Int × Int)") for o in info.outs]
+            tys = [("Int" if o[0] == "ret" and o[1].kind == "int" else "Bool" if o[0] == "ret" else "Int" if o[0] == "out" else
+                    "List Int" if o[0] in ("sink", "stream") else "List (Int × Int)") for o in info.outs]
             self.pre.append(f"let {rn} : {tuple_type(tys)} := {callt}")
         ret = None
         for i, o in enumerate(info.outs):
@@ -1819,6 +1889,10 @@ class FuncTranslator:
                 ret = (pr, o[1])
             elif o[0] == "sink":
                 self.assign(ctx, "w:", f"({ctx.vals['w:']} ++ {pr})", self.pre)
+            elif o[0] == "stream":
+                self.assign(ctx, "in:", pr, self.pre)
+            elif o[0] == "out":
+                self.assign(ctx, self.ptr_arg_loc(args[o[1]], ctx), pr, self.pre)
             else:
                 if off is None:
                     self.fail(f"call of `{name}` without a byte pointer", n)
@@ -1835,7 +1909,7 @@ class FuncTranslator:
         """a call whose results are its output parameters: `f(a, &x, &y);`"""
         name, callee, info, cparms = self.resolve_callee(n, ctx)
         args = n["inner"][1:]
-        if any(o[0] in ("sink", "log") for o in info.outs) or info.fueled:
+        if any(o[0] in ("sink", "log", "stream") for o in info.outs) or info.fueled:
             self.effect_call(n, ctx, name, callee, info, cparms)
             return
         if any(o[0] != "out" for o in info.outs):
@@ -2243,7 +2317,7 @@ class FuncTranslator:
                 return "true", CT("bool")
         # a function of the translated set
         name, callee, info, cparms = self.resolve_callee(n, ctx)
-        if any(o[0] in ("sink", "log") for o in info.outs) or info.fueled:
+        if any(o[0] in ("sink", "log", "stream") for o in info.outs) or info.fueled:
             return self.effect_call(n, ctx, name, callee, info, cparms)
         if len(info.outs) != 1 or info.outs[0][0] != "ret":
             self.fail(f"call of `{name}` which has output parameters or modifies the object", n)
@@ -2345,7 +2419,7 @@ def generate(repo, build_dir, workdir, whitelist=None):
         q = (w["cls"] + "::" if w.get("cls") else "") + w["fn"]
         try:
             decl = ix.find_function(w.get("cls"), w["fn"], w.get("params"), w.get("targs"))
-            tr.translate(decl)
+            tr.translate(decl, w)
         except XlateError as ex:
             failed.append((q, str(ex)))
             notes.append(f"xlate: {q} not translated: {ex}")
@@ -2370,8 +2444,9 @@ def generate(repo, build_dir, workdir, whitelist=None):
         for (f, t) in fields:
             out.append(f"  {lean_ident(f)} : {t.lean()}")
         out.append("deriving Repr, DecidableEq\n")
-    for i in tr.order:
-        info = tr.done[i]
+    for key in tr.order:
+        info = tr.done[key]
+        i = key.split("#")[0]
         d = ix.byid[i]
         cls = ix.class_of(d)
         loc = d.get("loc", {})
